@@ -125,6 +125,16 @@ def step(objs, st, o):
         if k == "contains":
             r = t.obj.contains(query(st[2], t, o))
             return ["obs", ["bools", [int(bool(x)) for x in np.asarray(r).tolist()]]]
+        if k == "containsrep":
+            v, n, tail, where = key_int(st[2], t.kdt), int(st[3]), [key_int(x, t.kdt) for x in st[4]], st[5]
+            qdt = np.uint64 if t.kdt == "u8" else np.int64          # queries may lie outside the key dtype (absent by construction)
+            rep = np.full(n, v, dtype=qdt)
+            tl = np.array(tail, dtype=qdt)
+            r = np.asarray(t.obj.contains(np.concatenate([rep, tl] if where == "head" else [tl, rep])))
+            rr, rt = (r[:n], r[n:]) if where == "head" else (r[len(tl):], r[:len(tl)])
+            if len(r) != n + len(tl) or (n and not (rr.all() or not rr.any())):
+                return ["obs", ["raised", "InconsistentAnswersForEqualQueries"]]
+            return ["obs", ["boolsrep", int(bool(rr[0])) if n else 0, n, [int(bool(x)) for x in rt.tolist()]]]
         if k == "containsone":
             r = t.obj.contains(key_int(st[2], t.kdt))
             return ["obs", ["bool", int(bool(r))]]
